@@ -146,21 +146,24 @@ Print Assumptions c13_generic_predicate.
    <plugin>_spec: what changes and that nothing else does. *)
 
 (* ---- rename ------------------------------------------------------------------------------------- *)
-(* ---- rename ------------------------------------------------------------------------------------- *)
-(* full strength is FALSE: the accepted configuration key "_" is the empty selector, Do ties the root
-   into itself (finding C13-rename-empty-path-cycle) *)
-Theorem c13_rename_total_refuted : exists preserve ops root, rename_do preserve ops root = Err 1.
-Proof. exact rename_empty_path_refuted. Qed.
-Print Assumptions c13_rename_total_refuted.
+(* every configuration the (repaired, fix 4232b91) validation accepts: Start drops the key that is empty after
+   the unescaping, cfg.ParseFieldSelector (oracle sel) of a non-empty selector is a non-empty path; so totality
+   needs no hypothesis on the operations *)
+Theorem c13_rename_cfg_paths_nonempty : forall sel cfg, (forall k, k <> [] -> sel k <> []) ->
+  paths_nonempty (rename_ops sel cfg) = true.
+Proof. exact rename_cfg_paths_nonempty. Qed.
+Print Assumptions c13_rename_cfg_paths_nonempty.
 
-Theorem c13_rename_total_wf_partial :
-  (forall preserve ops root, paths_nonempty ops = true ->
-  exists r, rename_do preserve ops root = Ok (APass, r))
+Theorem c13_rename_total_wf :
+  (forall sel, (forall k, k <> [] -> sel k <> []) -> forall preserve cfg root,
+     exists r, rename_cfg_do sel preserve cfg root = Ok (APass, r))
   /\
   (forall preserve ops root a r, wf_json root = true ->
-  rename_do preserve ops root = Ok (a, r) -> a = APass /\ wf_json r = true).
-Proof. exact (conj rename_total rename_wf). Qed.
-Print Assumptions c13_rename_total_wf_partial.
+     rename_do preserve ops root = Ok (a, r) -> a = APass /\ wf_json r = true)
+  /\
+  (forall cfg k' v, In (k', v) (unescape_map cfg) <-> exists k, In (k, v) cfg /\ k' = unescape_key k /\ k' <> []).
+Proof. exact (conj rename_cfg_total (conj rename_wf unescape_map_in)). Qed.
+Print Assumptions c13_rename_total_wf.
 
 Theorem c13_rename_spec :
   (forall preserve root path name, path <> [] ->
@@ -521,6 +524,15 @@ Example c13_rename_nonvacuous :
   /\ rename_do true [([bs "a"; bs "b"], bs "x")]
        (JObj [(bs "a", JObj [(bs "b", JNum (bs "1"))]); (bs "x", JNum (bs "2"))])
      = Ok (APass, JObj [(bs "a", JObj [(bs "b", JNum (bs "1"))]); (bs "x", JNum (bs "2"))]).
+Proof. repeat split; vm_compute; reflexivity. Qed.
+
+(* the witness of the repaired finding C13-rename-empty-path-cycle: the key "_" is no operation any more;
+   the model function on the empty path it used to yield answers Err (the root tied into itself) *)
+Example c13_rename_empty_path_is_rejected_by_validation :
+  rename_ops (fun k => [k]) [(bs "_", bs "x"); (bs "__a", bs "y"); ([], bs "z"); (bs "_b", bs "w")]
+    = [([bs "_a"], bs "y"); ([bs "b"], bs "w")]
+  /\ rename_cfg_do (fun k => [k]) true [(bs "_", bs "x")] (JObj [(bs "a", JNum (bs "1"))]) = Ok (APass, JObj [(bs "a", JNum (bs "1"))])
+  /\ rename_do true [([], bs "x")] (JObj [(bs "a", JNum (bs "1"))]) = Err 1.
 Proof. repeat split; vm_compute; reflexivity. Qed.
 
 Example c13_move_nonvacuous :
